@@ -88,7 +88,7 @@ Definition sty_eqb (a b : sty) : bool :=
 (* what expr.c guarantees about the trees it builds (C05's property) *)
 Fixpoint wt (e : pexpr) : bool :=
   match e with
-  | PConst t _ => intlike t
+  | PConst t n => match t with SBool => (n =? 0) || (n =? 1) | _ => intlike t end
   | PTemp t _ => intlike t
   | PCast t e1 => intlike t && intlike (ptype e1) && wt e1
   | PNeg t e1 => promoted t && sty_eqb (ptype e1) t && wt e1
